@@ -49,6 +49,12 @@ PROFILES = {
     "J4": (P("SCRG", 4, 1, "stereo", False, ["json_roundtrip"], "none", False), P("SCRG", 4, 2, "stereo", False, ["json_roundtrip"], "none", False)),
     "V2": (P("CRG", 3, 0, "gen", False, ["reactant", "product", "reverse"], "none", True), P("CRG", 3, 2, "gen", False, ["reactant", "product", "reverse"], "none", True)),
     "V4": (P("SCRG", 4, 0, "stereo", False, ["reactant", "product", "reverse"], "none", True), P("SCRG", 4, 2, "stereo", False, ["reactant", "product", "reverse"], "none", True)),
+    # compose of a graph with a (modified) copy, then every edit on the composed graph / the sources (C10, C17): the
+    # deepest phase of the machine, which the breadth-first S profiles reach last (and not at all when truncated)
+    "K3": (P("SMG", 4, 0, "stereo", False, ["copy", "copy_mod", "compose"], "none", True, follow="all"),
+           P("SMG", 4, 1, "stereo", False, ["copy", "copy_mod", "compose"], "none", True, follow="all")),
+    "K4": (P("SCRG", 4, 0, "stereo", False, ["copy", "copy_mod", "compose"], "none", True, follow="all"),
+           P("SCRG", 4, 1, "stereo", False, ["copy", "copy_mod", "compose"], "none", True, follow="all")),
     # subgraph / compose / components (C17)
     "S1": (P("MG", 3, 0, "gen", True, ALGEBRA, "none", True, subsets="all"),
            P("MG", 3, 1, "gen", True, ALGEBRA, "none", True, subsets="all")),
@@ -66,9 +72,9 @@ CAPS = {"quick": (60000, 75), "thorough": (1500000, 1500)}
 PROP_PROFILES = {
     "C09": ["E1", "E2", "E3", "E4"],
     "C19": ["E1", "E2", "E3", "E4"],
-    "C10": ["D1", "D2", "D3", "D4", "S3", "S4"],
+    "C10": ["D1", "D2", "D3", "D4", "S3", "S4", "K3", "K4"],
     "C11": ["R1", "R2", "R3", "R4"],
-    "C17": ["S1", "S2", "S3", "S4"],
+    "C17": ["S1", "S2", "S3", "S4", "K4"],
     "C06": ["X3", "X4"],
     "C15": ["J1", "J2", "J3", "J4"],
     "C08": ["V2", "V4"],
